@@ -1574,6 +1574,10 @@ M('C02', 'original defect: _eig_worker stores the eigenvector block without cast
   "        resv._data[qi] = rv.astype(resv.dtype, copy=False)  # replace identity block (float32/complex64 input!)", "        resv._data[qi] = rv  # replace identity block",
   'DTYPE-block-store')
 
+M('C10', 'original defect: multi_coupling_term_handle_JW overrides an explicit op_string', 'tenpy/networks/terms.py',
+  "        if op_string is None and not any(op_needs_JW):", "        if not any(op_needs_JW):",
+  'PARAM-explicit-kept')
+
 # ---------------------------------------------------------------- C16 / C19
 M('C16', 'GMRES restart: relative residual norm used for normalisation (round-3 seed b)', KRY,
   """        self.total_error.append([npc.norm(self.rs[-1]) / self.b_norm])
